@@ -77,6 +77,13 @@ func ReadRequest(r io.Reader) (*Request, error) {
 	for reader.Next() {
 		// discard
 	}
+	// A stream that ends in anything but its end-of-stream marker (or a clean
+	// end of input) is not a request: what follows the first batch could not
+	// be read, so the transport is no longer in step.
+	if err := reader.Err(); err != nil {
+		batch.Release()
+		return nil, fmt.Errorf("reading request stream: %w", err)
+	}
 
 	// Extract custom metadata
 	var meta arrow.Metadata
